@@ -98,9 +98,12 @@ Next ==
             /\ (On("C13") =>
                   \* (the committed blocks may belong to a branch the node has since abandoned)
                   /\ Chk("C13.count", CountOk(r.count, r.indexed), r)
+                  \* a process killed at an arbitrary moment may have made one more commit durable than the
+                  \* last one it got to report: the height is then at least the last reported one
                   /\ Chk("C13.committedHeight",
-                         IF r.durable = <<>> THEN r.count = r.before
-                         ELSE r.count = r.durable[Len(r.durable)],
+                         LET lastKnown == IF r.durable = <<>> THEN r.before ELSE r.durable[Len(r.durable)] IN
+                         IF r.point = "kill" THEN r.count >= lastKnown \/ (r.durable # <<>> /\ r.count >= r.before)
+                         ELSE r.count = lastKnown,
                          <<"count", r.count, "durable", r.durable, "before", r.before>>))
             /\ last' = [kind |-> "crash"] /\ UNCHANGED <<cfg, node, dig, res>>
        [] OTHER -> UNCHANGED <<cfg, node, dig, last, res>>
